@@ -296,6 +296,71 @@ func run(e *core.Env) {
 		}
 	}
 
+	// Second focused opening (a sixth of the runs): slow delivery around the 30 s after which a
+	// router forgets its own setup. The lower router's request is held for 24..29.9 s, the higher
+	// one starts its own setup just before it is delivered, and its request reaches the lower
+	// router 0.2..8 s later - before or after that router's own setup timed out. Nothing is
+	// lost and no frame is older than 30 s when it arrives.
+	if tp.Chance(1, 6) {
+		lo, hi := A, B
+		if B.IP.Compare(A.IP) < 0 {
+			lo, hi = B, A
+		}
+		sleepHeld := func(d time.Duration) {
+			end := time.Now().Add(d)
+			for time.Now().Before(end) {
+				step := 50 * time.Millisecond
+				if r := time.Until(end); r < step {
+					step = r
+				}
+				time.Sleep(step)
+				simnet.Wait()
+				pump()
+			}
+			history = append(history, "sleep("+d.String()+")")
+		}
+		deliverTo := func(dst *node.Node, wantResp bool) {
+			for guard := 0; guard < 6; guard++ { // (a relay in between forwards in several steps)
+				progressed := false
+				for _, p := range pump() {
+					if _, fu := isHello(p, parser); fu != wantResp {
+						continue
+					}
+					if f, err := mesh.ParseCrossing(parser, p.Data); err == nil {
+						toDst := f.DstIP() == dst.IP
+						f.ReturnToPool()
+						if !toDst {
+							continue
+						}
+					}
+					history = append(history, fmt.Sprintf("deliver(%s->%s resp=%v)", p.From.Local.Name, p.To.Local.Name, wantResp))
+					noteDelivery(p)
+					ms.Net.Deliver(p)
+					progressed = true
+				}
+				if !progressed {
+					return
+				}
+			}
+		}
+		sendHello(lo, hi, "lo")
+		sleepHeld(24*time.Second + time.Duration(tp.Intn(5900))*time.Millisecond)
+		sendHello(hi, lo, "hi")
+		history = append(history, "both-initiated")
+		deliverTo(hi, false)
+		sleepHeld(200*time.Millisecond + time.Duration(tp.Intn(7800))*time.Millisecond)
+		deliverTo(lo, false)
+		if tp.Chance(1, 2) {
+			deliverTo(hi, true)
+			deliverTo(lo, true)
+		} else {
+			deliverTo(lo, true)
+			deliverTo(hi, true)
+		}
+		e.Probe("slow_delivery_around_the_setup_timeout")
+		e.Fault("delay")
+	}
+
 	steps := 4 + tp.Intn(24)
 	retriesA, retriesB := 0, 0
 	for s := 0; s < steps; s++ {
